@@ -206,3 +206,18 @@ package sweep
 //@        ret(RequiredTxOut, 2) == nil
 //@   site call AddTxOut nth 0: assert arg(1) == ret(RequiredTxOut, 1)
 //@   site return nil: assert retn(prepareSweepTx, 3) == nil && result0.fee == retn(prepareSweepTx, 0) && result0.tx == sweepTx
+//@
+//@ inline-func (github.com/lightningnetwork/lnd/fn/v2.Option[github.com/lightningnetwork/lnd/lnwallet/chainfee.SatPerKWeight]).UnwrapOr
+//@ inline-func github.com/lightningnetwork/lnd/fn/v2.Some[github.com/lightningnetwork/lnd/lnwallet/chainfee.SatPerKWeight] github.com/lightningnetwork/lnd/fn/v2.None[github.com/lightningnetwork/lnd/lnwallet/chainfee.SatPerKWeight]
+//@
+//@ // the regrouped set never starts below a rate already stored for one of its inputs
+//@ spec func storedRate(isSome bool, some int) int = ite(isSome, some, 0)
+//@ func (b *BudgetInputSet) StartingFeeRate
+//@   props C18
+//@   loop 0 invariant rangeindex < len(b.inputs) && 0 <= maxFeeRate && (startingFeeRate.isSome ==> startingFeeRate.some == maxFeeRate) &&
+//@        (!startingFeeRate.isSome ==> maxFeeRate == 0) &&
+//@        forallq(j, 0, rangeindex+1, storedRate(b.inputs[j].params.StartingFeeRate.isSome, b.inputs[j].params.StartingFeeRate.some) <= maxFeeRate)
+//@   loop 0 invariant startingFeeRate.isSome ==> existsq(j, 0, rangeindex+1, b.inputs[j].params.StartingFeeRate.isSome && b.inputs[j].params.StartingFeeRate.some == startingFeeRate.some)
+//@   ensures forallq(j, 0, len(b.inputs), storedRate(b.inputs[j].params.StartingFeeRate.isSome, b.inputs[j].params.StartingFeeRate.some) <= storedRate(result.isSome, result.some))
+//@   ensures result.isSome ==> existsq(j, 0, len(b.inputs), b.inputs[j].params.StartingFeeRate.isSome && b.inputs[j].params.StartingFeeRate.some == result.some)
+//@   modifies nothing
